@@ -111,6 +111,10 @@ func (s *Sim) count(k string) {
 type Task struct {
 	ID     int
 	Name   string
+	// Weight biases the scheduler's pick among runnable tasks (default 1): a long
+	// task can be given a large weight so that short tasks are spread over its
+	// whole duration instead of finishing during its first steps.
+	Weight int
 	resume chan struct{}
 	done   bool
 	// what the task is waiting to do (lock acquisition) while parked
@@ -188,7 +192,25 @@ func (s *Sim) RunTasks() string {
 		if len(runnable) > 1 {
 			// Bias: mostly continue the task that ran last (fewer context
 			// switches = more meaningful, shrinkable schedules), sometimes switch.
-			idx := s.Draw(len(runnable), "sched")
+			weighted := false
+			for _, t := range runnable {
+				if t.Weight > 1 {
+					weighted = true
+				}
+			}
+			idx := 0
+			if weighted {
+				ws := make([]int, len(runnable))
+				for i, t := range runnable {
+					ws[i] = 1
+					if t.Weight > 1 {
+						ws[i] = t.Weight
+					}
+				}
+				idx = s.DrawW("sched", ws...)
+			} else {
+				idx = s.Draw(len(runnable), "sched")
+			}
 			pick = runnable[idx]
 		}
 		if pick.wantLock != nil {
